@@ -40,6 +40,7 @@ import (
 	"io/ioutil"
 	"log"
 	"os"
+	"sync"
 )
 
 // default level for logger.
@@ -202,11 +203,15 @@ func init() {
 // Switch the underlayer io.
 // @remark user must close previous io for logger never close it.
 func Switch(w io.Writer) io.Writer {
+	// The levels share the writer, while each log.Logger only locks itself,
+	// so serialize the writes of all levels to the writer.
+	lw := &lockedWriter{w: w}
+
 	// TODO: support level, default to trace here.
 	Info = NewLoggerPlus(log.New(ioutil.Discard, logInfoLabel, log.Ldate|log.Ltime|log.Lmicroseconds))
-	Trace = NewLoggerPlus(log.New(w, logTraceLabel, log.Ldate|log.Ltime|log.Lmicroseconds))
-	Warn = NewLoggerPlus(log.New(w, logWarnLabel, log.Ldate|log.Ltime|log.Lmicroseconds))
-	Error = NewLoggerPlus(log.New(w, logErrorLabel, log.Ldate|log.Ltime|log.Lmicroseconds))
+	Trace = NewLoggerPlus(log.New(lw, logTraceLabel, log.Ldate|log.Ltime|log.Lmicroseconds))
+	Warn = NewLoggerPlus(log.New(lw, logWarnLabel, log.Ldate|log.Ltime|log.Lmicroseconds))
+	Error = NewLoggerPlus(log.New(lw, logErrorLabel, log.Ldate|log.Ltime|log.Lmicroseconds))
 
 	ow := previousWriter
 	previousWriter = w
@@ -216,6 +221,19 @@ func Switch(w io.Writer) io.Writer {
 	}
 
 	return ow
+}
+
+// The writer which allows only one write at a time.
+type lockedWriter struct {
+	lock sync.Mutex
+	w    io.Writer
+}
+
+func (v *lockedWriter) Write(p []byte) (n int, err error) {
+	v.lock.Lock()
+	defer v.lock.Unlock()
+
+	return v.w.Write(p)
 }
 
 // The previous underlayer io for logger.
